@@ -217,6 +217,15 @@ const maxSlots = 1e4 // 10000
 //
 // Targets with a dynamic weight will receive an equal share of the remaining
 // traffic if there is any left.
+// weighEvenly gives every target the same share of the traffic.
+func (r *Route) weighEvenly() {
+	w := 1.0 / float64(len(r.Targets))
+	for _, t := range r.Targets {
+		t.Weight = w
+	}
+	r.wTargets = r.Targets
+}
+
 func (r *Route) weighTargets() {
 	// how big is the fixed weighted traffic?
 	var nFixed int
@@ -231,11 +240,7 @@ func (r *Route) weighTargets() {
 	// if there are no targets with fixed weight then each target simply gets
 	// an equal amount of traffic
 	if nFixed == 0 {
-		w := 1.0 / float64(len(r.Targets))
-		for _, t := range r.Targets {
-			t.Weight = w
-		}
-		r.wTargets = r.Targets
+		r.weighEvenly()
 		return
 	}
 
@@ -257,6 +262,14 @@ func (r *Route) weighTargets() {
 			t.Weight = t.FixedWeight * scale
 		} else {
 			t.Weight = dynamic
+		}
+		// fixed weights whose sum overflows or which are too small to be scaled
+		// (1/sumFixed = +Inf) do not yield a distribution: share the traffic evenly
+		// instead of building a ring of negative or zero size
+		if !(t.Weight >= 0 && t.Weight <= 1+1e-9) {
+			log.Printf("[WARN] route: unusable weights for %s%s, distributing traffic evenly", r.Host, r.Path)
+			r.weighEvenly()
+			return
 		}
 	}
 
@@ -298,6 +311,13 @@ func (r *Route) weighTargets() {
 		slots[i].i = i
 		slots[i].n = n
 		usedSlots += n
+	}
+
+	if usedSlots <= 0 {
+		// every weight rounded to zero slots
+		log.Printf("[WARN] route: unusable weights for %s%s, distributing traffic evenly", r.Host, r.Path)
+		r.weighEvenly()
+		return
 	}
 
 	sort.Sort(slots)
